@@ -139,7 +139,7 @@ RULE = ('frames of every length 0-512 x {random, all-equal, ramp, alternating, n
         'virtual clock (>= 120 s, ArtPoll/ArtPollReply exchanged at intervals below and above the 31 s age-out, unicast '
         'and always-broadcast senders); long-lived sender AND receiver node objects per protocol with scripts over four universes, repeated / identical '
         'frames and public setters between sends (names, StartStream, port re-configuration); Art-Net ports with two or '
-        'three senders, joins and silences across the 10 s merge timeout, HTP and LTP; E1.31 receivers with two or three sender CIDs on a virtual clock (vanishing without terminate and expiring, take-over at lower / higher priority, a sender idling at blackout, terminate and restart); ESP Net DATA_RLE datagrams from a reference encoder (values 0xFD/0xFE as literals, pairs, runs of every chunk length) and arbitrary bytes through the real RunLengthDecoder; transmit DmxBuffers carry history (an earlier, longer frame left in the '
+        'three senders, joins and silences across the 10 s merge timeout, HTP and LTP; E1.31 receivers with two or three sender CIDs on a virtual clock (vanishing without terminate and expiring, take-over at lower / higher priority, a sender idling at blackout, terminate and restart); ESP Net DATA_RLE datagrams from a reference encoder (values 0xFD/0xFE as literals, pairs, runs of every chunk length) and arbitrary bytes through the real RunLengthDecoder; every public E1.31 send entry point on one stream (SendDMXWithSequenceOffset with offsets -128..127, per-call priority, preview, SendStreamTerminated, SetSourceName, StartStream) interleaved with regular sends, checked against the E1.31 sequence-window rules; Art-Net SendTimeCode between ArtDmx sends; transmit DmxBuffers carry history (an earlier, longer frame left in the '
         '512-byte block; explicit dirty-block cases for Encode and ShowNet with short frames); Art-Net sender and receiver '
         'as separate nodes with 0/1/4 input ports and the address setters called in every order before/after Start(); '
         'non-trivial = complete encode / whole decode / datagram handled; '
@@ -549,6 +549,26 @@ def gen_cases(rng, tier):
         n = rng.choice([0, 1, 2, 3, 5, 20, 100, rng.randrange(1, 600)])
         bs = [rng.choice([0xFD, 0xFE, 0xFE, 0, 1, 3, 255, rng.randrange(256)]) for _ in range(n)]
         yield 'esd %s %s' % (olds(rng, n), hx(bs))
+    # ---- E1.31: every public send entry point on one stream, interleaved with regular sends
+    for rev2 in (0, 1):
+        pool2 = hx([1, 2, 3]) + '/' + hx([9, 8])
+        for off in (-30, -21, -20, -19, -5, -1, 0, 1, 5, 19, 20, 21, 100, 127, -128):
+            yield 'e1x %d %s %s' % (rev2, pool2, ','.join(['s0', 's1', 's0', 'o1_%d' % off] + ['s%d' % (i & 1) for i in range(24)]))
+            yield 'e1x %d %s %s' % (rev2, pool2, ','.join(['s%d' % (i & 1) for i in range(rng.choice([1, 30, 250, 260]))]
+                                                           + ['o0_%d' % off, 's1', 's0', 's1', 's0', 's1', 's0']))
+        yield 'e1x %d %s %s' % (rev2, pool2, 'o0_-5,s1,s0,s1')
+        yield 'e1x %d %s %s' % (rev2, pool2, 's0,s1,z,s0,s1,v0,s1,p0_200,s1,p1_0,s0,n,x,s1')
+        for _ in range(10 if quick else 200):
+            toks = []
+            for i in range(rng.choice([8, 20, 40])):
+                r = rng.random()
+                if r < 0.6: toks.append('s%d' % rng.randrange(2))
+                elif r < 0.72: toks.append('o%d_%d' % (rng.randrange(2), rng.choice([-25, -20, -19, -5, -1, 0, 1, 5, 30])))
+                elif r < 0.8: toks.append('p%d_%d' % (rng.randrange(2), rng.choice([0, 1, 100, 150, 200])))
+                elif r < 0.86: toks.append('v%d' % rng.randrange(2))
+                elif r < 0.92: toks.append('z')
+                else: toks.append(rng.choice(['n', 'x']))
+            yield 'e1x %d %s %s' % (rev2, pool2, ','.join(toks))
     if not quick:
         # all addresses of the small address spaces
         f = [1, 2, 3, 3, 3, 9]
@@ -583,7 +603,7 @@ def nontrivial(payload, md):
         return md.get('ret') == '1' and md.get('size') not in (None, '0')
     if op == 'dec':
         return md.get('dret') == '1' and md.get('dbuf') not in (None, 'none')
-    if op in ('e1s', 'e1m', 'an3', 'anu', 'e1p', 'sac', 'hist', 'anm', 'e1c', 'esr'):
+    if op in ('e1s', 'e1m', 'an3', 'anu', 'e1p', 'sac', 'hist', 'anm', 'e1c', 'esr', 'e1x'):
         return md.get('spec') == '1'
     if op == 'esd':
         return md.get('dbuf') not in (None, 'none', '-')
